@@ -6,6 +6,10 @@ rule_sets   generated rule sets in 1-3 synthetic modules (module base names, key
             small reference model says for every rule in which single place it must be accounted
             (heading entry / skips / system.metadata / top-level metadata key / broker.exceptions /
             nowhere) and what the entry carries; formatter options hide exactly the named headings.
+            The rules stand on generated upstream chains of the real plugin types (plain component /
+            spec registry point <- datasource / parser or condition on a spec / combiner on a parser)
+            whose content provider may load lazily into ContentException / CalledProcessError; rule
+            bodies read what they are given, so such an error surfaces inside the rule.
 filtering   the same check on a fixed rule set holding every outcome class, for *every*
             missing x show_rules-subset combination (finite, enumerated) through JSON and YAML.
 responses   response constructor arguments: key validation, reserved names, payload sizes
@@ -24,8 +28,12 @@ from vp.core import Sub, Reg, Violation, HarnessError
 
 PROPERTY = "C12"
 RULE = ("rule sets of 1-10 generated rules in 1-3 synthetic modules (colliding module base names, "
-        "shared keys, shared types) over 4 generated upstream components (value / skip / crash); per "
-        "rule a dependency declaration (required, at-least-one groups, optional; possibly none), "
+        "shared keys, shared types) over 4 generated upstreams (value / skip / crash), each one a chain "
+        "of a generated kind - plain component, spec registry point with its datasource, Parser class or "
+        "condition on a spec, combiner on a parser - over a content provider whose content is readable "
+        "or raises ContentException / CalledProcessError on first access (a parser/condition/combiner over "
+        "unreadable content is absent, a component/spec value is present and fails in whoever reads it); "
+        "per rule whether its body reads its arguments, a dependency declaration (required, at-least-one groups, optional; possibly none), "
         "enabled/disabled, tags, links and a return kind out of fail, response, pass, info, "
         "fingerprint, metadata, metadata_key, None, a non-response value (incl. falsy ones and a "
         "response-shaped plain dict), raising (ValueError/KeyError/ContentException/"
@@ -39,6 +47,9 @@ RULE = ("rule sets of 1-10 generated rules in 1-3 synthetic modules (colliding m
         "non-trivial: invalid argument set or a length within 2 of the limit.")
 ASSUMPTIONS = [
     "Broker.store_skips is left at its default (False), so a deliberate skip leaves no record",
+    "a rule whose body lets a ContentException / CalledProcessError from reading its input escape has "
+    "taken part in the evaluation and failed: its outcome is a recorded exception (PluginType docstring: "
+    "these errors are lazy and can surface in any component)",
     "the size of a response is what the code measures: len(str(dict)) of type + key + details "
     "(independent of dict order)",
     "the YAML output is read back with a loader that maps python/object tags to plain dicts",
@@ -127,10 +138,42 @@ def _key_valid(key):
     return isinstance(key, str) and len(key) > 0
 
 
+UPKINDS = ["component", "spec", "parser", "condition", "combiner"]
+
+
+def _up_kind(case, j):
+    return (case.get("upkinds") or ["component"] * 4)[j]
+
+
+def _up_content(case, j):
+    return (case.get("upcontent") or ["ok"] * 4)[j]
+
+
+def _up_present(case, j):
+    """does upstream j give its dependents a value?  A provider (plain component, spec) is there as soon
+    as its producer succeeded - whether its content can be read shows only when somebody reads it; a
+    parser / condition / combiner reads the content while it is built, so it exists only if that worked"""
+    if case["ups"][j] != "ok":
+        return False
+    return _up_kind(case, j) in ("component", "spec") or _up_content(case, j) == "ok"
+
+
+def _up_unreadable(case, j):
+    """the value handed to the rule is a content provider whose content raises when read"""
+    return _up_kind(case, j) in ("component", "spec") and _up_content(case, j) != "ok"
+
+
+def _flat_deps(decl):
+    out = []
+    for d in decl:
+        out.extend(d[1] if d[0] == "grp" else [d[1]])
+    return out
+
+
 def model_rules(case, names, upnames):
     """-> list of dict(cls=typed|skip|metadata|metadata_key|exception|nothing, ...) per rule"""
     limit = case.get("limit") or DEFAULT_LIMIT
-    upval = [u == "ok" for u in case["ups"]]
+    upval = [_up_present(case, j) for j in range(len(case["ups"]))]
     out = []
     for i, r in enumerate(case["rules"]):
         if not r["enabled"]:
@@ -148,6 +191,11 @@ def model_rules(case, names, upnames):
             continue
         ret = r["ret"]
         kind = ret["kind"]
+        if r.get("reads") and any(upval[j] and _up_unreadable(case, j) for j in _flat_deps(r["decl"])):
+            # the dependency is there, its content is not: the rule's body fails while reading it, whatever
+            # it would have returned
+            out.append({"cls": "exception", "why": "lazy-content", "invoked": True})
+            continue
         if kind in TYPED:
             payload = dict(ret.get("payload") or {})
             padded = False
@@ -216,6 +264,20 @@ def selftest():
     m = model_rules(case, None, ["u0", "u1", "u2", "u3"])
     assert [x["cls"] for x in m] == ["typed", "skip", "nothing", "exception", "typed"], m
     assert m[1]["missing"] == ["u1", "u1", "u2"] and m[4]["type"] == "none"
+    # what the rules are built on: a provider is there although unreadable, a parser on it is not
+    case = {"ups": ["ok", "skip", "ok", "ok"], "upkinds": ["spec", "component", "parser", "component"],
+            "upcontent": ["cpe", "ce", "ce", "ok"], "rules": [
+        {"mod": 0, "decl": [["req", 0]], "enabled": True, "reads": True, "ret": {"kind": "pass", "key": "K"}},
+        {"mod": 0, "decl": [["req", 0]], "enabled": True, "reads": False, "ret": {"kind": "pass", "key": "K"}},
+        {"mod": 0, "decl": [["grp", [1, 3]], ["opt", 2]], "enabled": True, "reads": True, "ret": {"kind": "skip"}},
+        {"mod": 0, "decl": [["req", 2], ["opt", 0]], "enabled": True, "reads": True, "ret": {"kind": "pass", "key": "K"}},
+        {"mod": 0, "decl": [["req", 3], ["opt", 0]], "enabled": False, "reads": True, "ret": {"kind": "pass", "key": "K"}},
+        {"mod": 0, "decl": [["grp", [3, 0]]], "enabled": True, "reads": True, "ret": {"kind": "raise", "exc": "KeyError"}}]}
+    m = model_rules(case, None, ["u0", "u1", "u2", "u3"])
+    assert [(x["cls"], x.get("why")) for x in m] == [
+        ("exception", "lazy-content"), ("typed", None), ("nothing", "deliberate skip"), ("skip", None),
+        ("nothing", "disabled"), ("exception", "lazy-content")], m
+    assert m[3]["missing"] == ["u2"]
     assert _effective_show({"evaluator": "json", "missing": False, "show_rules": []}) == (False, set(SHOW_OPTS) - set(["none"]))
     assert _effective_show({"evaluator": "json-adapter", "missing": True, "fail_only": True, "show_rules": []}) == (True, set(SHOW_OPTS) - set(["none"]))
     assert _effective_show({"evaluator": "yaml-adapter", "missing": False, "fail_only": True, "show_rules": []}) == (False, set(["rule"]))
@@ -263,19 +325,34 @@ def _yaml_loader():
         m = loader.construct_mapping(node, deep=True)
         return dict(m.get("dictitems", {}))
 
+    def _obj(loader, suffix, node):
+        # an arbitrary object inside the pickled state of a response (a skip response keeps the missing
+        # components themselves - functions, classes, registry point instances - next to their names)
+        return "object:" + suffix
+
     Loader.add_multi_constructor("tag:yaml.org,2002:python/name:", _name)
+    Loader.add_multi_constructor("tag:yaml.org,2002:python/object:", _obj)
     Loader.add_constructor("tag:yaml.org,2002:python/tuple", _tuple)
     Loader.add_multi_constructor("tag:yaml.org,2002:python/object/new:", _objnew)
     return Loader
 
 
-def _make_rule_body(i, ret, limit, log):
+def _make_rule_body(i, ret, limit, log, reads=False):
     from insights.core.exceptions import SkipComponent, ContentException, CalledProcessError
+    from insights.core.spec_factory import ContentProvider
     kind = ret["kind"]
     classes = _classes()
 
     def body(*args):
         log.append(i)
+        if reads:
+            # what rule bodies do with their arguments: look at the lines of a spec, at the data of a
+            # parser / combiner; a content provider loads (and may fail) only now
+            for a in args:
+                if isinstance(a, ContentProvider):
+                    len(a.content)
+                elif a is not None:
+                    len(a.data)
         if kind in TYPED:
             payload = dict(ret.get("payload") or {})
             if ret.get("pad") is not None:
@@ -313,29 +390,127 @@ def _make_rule_body(i, ret, limit, log):
     return body
 
 
+def _provider(j, content):
+    """the value of a spec: a content provider that loads lazily - the producer succeeded, reading may not"""
+    from insights.core.exceptions import ContentException, CalledProcessError
+    from insights.core.spec_factory import ContentProvider
+
+    class LazyProvider(ContentProvider):
+        def __init__(self):
+            super(LazyProvider, self).__init__()
+            self.root = "/"
+            self.relative_path = "vp_c12/up%d" % j
+            self.ctx = self.ds = self.cleaner = None
+
+        def load(self):
+            if content == "ce":
+                raise ContentException("%s vanished before it was read" % self.path)
+            if content == "cpe":
+                raise CalledProcessError(1, "/bin/up%d" % j, "")
+            return ["line of up%d" % j]
+    return LazyProvider()
+
+
+class _Data(object):
+    def __init__(self, data):
+        self.data = data
+
+
+def _build_ups(case, upmod, m, comps):
+    """the four upstreams, each one a chain of the kind named in case["upkinds"]:
+    component: @component returning a provider             spec: Specs.upN <- @datasource Impl.upN
+    parser:    Specs.srcN <- Impl.srcN <- Parser class upN  condition: the same with a @condition function
+    combiner:  Specs.srcN <- Impl.srcN <- Parser parN <- @combiner upN
+    case["ups"][j] (ok / skip / crash) is what the producer of the top value does (for a spec: its
+    datasource); case["upcontent"][j] says whether the content of the provider at the bottom can be read."""
+    from insights.core import Parser
+    from insights.core.plugins import component, datasource, parser, combiner, condition
+    from insights.core.spec_factory import RegistryPoint, SpecSet
+    from insights.core.exceptions import SkipComponent
+
+    def outcome(j, here):
+        out = case["ups"][j]
+        if here and out == "skip":
+            raise SkipComponent("up%d" % j)
+        if here and out == "crash":
+            raise RuntimeError("up%d" % j)
+
+    def named(fn, name):
+        fn.__name__ = fn.__qualname__ = name
+        fn.__module__ = upmod
+        setattr(m, name, fn)
+        return fn
+
+    n = len(case["ups"])
+    kinds = [_up_kind(case, j) for j in range(n)]
+    if any(k not in UPKINDS for k in kinds) or any(_up_content(case, j) not in ("ok", "ce", "cpe") for j in range(n)):
+        raise HarnessError("bad case: upstream kind / content")
+    specname = dict((j, ("up%d" if kinds[j] == "spec" else "src%d") % j) for j in range(n) if kinds[j] != "component")
+    points = {}
+    if specname:
+        dct = dict((name, RegistryPoint()) for name in specname.values())
+        dct["__module__"] = upmod
+        specs = type("Specs", (SpecSet,), dct)
+        impls = {"__module__": upmod}
+        for j, name in sorted(specname.items()):
+            def dsbody(broker, j=j):
+                outcome(j, kinds[j] == "spec")
+                return _provider(j, _up_content(case, j))
+            dsbody.__name__ = dsbody.__qualname__ = name
+            dsbody.__module__ = upmod
+            impls[name] = datasource()(dsbody)
+            points[j] = specs.registry[name]
+            comps.extend([points[j], impls[name]])
+        m.Specs = specs
+        m.Impl = type("Impl", (specs,), impls)
+    ups = []
+    for j in range(n):
+        kind = kinds[j]
+        if kind == "component":
+            def ubody(j=j):
+                outcome(j, True)
+                return _provider(j, _up_content(case, j))
+            ups.append(component()(named(ubody, "up%d" % j)))
+        elif kind == "spec":
+            ups.append(points[j])
+            continue
+        elif kind == "condition":
+            def cbody(spec, j=j):
+                lines = list(spec.content)
+                outcome(j, True)
+                return _Data(lines)
+            ups.append(condition(points[j])(named(cbody, "up%d" % j)))
+        else:
+            def parse_content(self, content, j=j, here=(kind == "parser")):
+                self.data = list(content)
+                outcome(j, here)
+            pname = "up%d" % j if kind == "parser" else "par%d" % j
+            pcls = type(pname, (Parser,), {"parse_content": parse_content, "__module__": upmod})
+            setattr(m, pname, pcls)
+            parser(points[j])(pcls)
+            if kind == "parser":
+                ups.append(pcls)
+            else:
+                comps.append(pcls)
+
+                def combody(p, j=j):
+                    outcome(j, True)
+                    return _Data(list(p.data))
+                ups.append(combiner(pcls)(named(combody, "up%d" % j)))
+        comps.append(ups[-1])
+    return ups
+
+
 def _build_rules(case, uid, log):
     from insights.core import dr
-    from insights.core.plugins import rule, component
-    from insights.core.exceptions import SkipComponent
+    from insights.core.plugins import rule
     limit = case.get("limit") or DEFAULT_LIMIT
     comps, modnames = [], []
     upmod = "vp_c12_u%d_up.deps" % uid
     m = types.ModuleType(upmod)
     sys.modules[upmod] = m
     modnames.append(upmod)
-    ups = []
-    for j, out in enumerate(case["ups"]):
-        def ubody(j=j, out=out):
-            if out == "skip":
-                raise SkipComponent("up%d" % j)
-            if out == "crash":
-                raise RuntimeError("up%d" % j)
-            return "val-up%d" % j
-        ubody.__name__ = ubody.__qualname__ = "up%d" % j
-        ubody.__module__ = upmod
-        setattr(m, ubody.__name__, ubody)
-        ups.append(component()(ubody))
-        comps.append(ups[-1])
+    ups = _build_ups(case, upmod, m, comps)
     mods = []
     for mi, md in enumerate(case["modules"]):
         full = "vp_c12_u%d_%s.%s" % (uid, md["pkg"], md["base"])
@@ -351,7 +526,7 @@ def _build_rules(case, uid, log):
         full, mm = mods[r["mod"]]
         k = per_mod.get(r["mod"], 0)
         per_mod[r["mod"]] = k + 1
-        body = _make_rule_body(i, r["ret"], limit, log)
+        body = _make_rule_body(i, r["ret"], limit, log, reads=bool(r.get("reads")))
         body.__name__ = body.__qualname__ = "r%d" % k
         body.__module__ = full
         setattr(mm, body.__name__, body)
@@ -478,14 +653,14 @@ def _post(fn, case):
                         options=_opts(case))
 
 
-_NAME_RE = re.compile(r"vp_c12_u\d+_[a-z]+\.[a-z]+\.[a-z]+[0-9]+")
+_NAME_RE = re.compile(r"vp_c12_u\d+_[a-z]+\.[a-z]+(?:\.[A-Z][a-z]+)?\.[a-z]+[0-9]+")
 
 
 def check_rules(case):
     from insights.core import dr
     from insights import settings
     limit = case.get("limit") or DEFAULT_LIMIT
-    if limit < 1500 or len(case["ups"]) != 4 or not 1 <= len(case["rules"]) <= 16:
+    if limit < 1500 or len(case["ups"]) != 4 or not 1 <= len(case["rules"]) <= 20:
         raise HarnessError("bad case")
     uid = next(_counter)
     log = []
@@ -497,7 +672,10 @@ def check_rules(case):
         plog.disabled = True
         settings.defaults["max_detail_length"] = limit
         comps, modnames, ups, rules, names, bases = _build_rules(case, uid, log)
-        upnames = ["vp_c12_u%d_up.deps.up%d" % (uid, j) for j in range(4)]
+        upnames = [dr.get_name(u) for u in ups]
+        for j, un in enumerate(upnames):
+            if _NAME_RE.findall(un) != [un] or not un.endswith(".up%d" % j):
+                raise HarnessError("generated upstream %d has the unexpected name %r" % (j, un))
         model = model_rules(case, names, upnames)
         graph = {}
         for rc in rules:
@@ -681,6 +859,13 @@ def check_rules(case):
         labels.add("incremental" if case.get("incremental") else "serial")
         if any(m["cls"] == "typed" and m.get("padded") for m in model):
             labels.add("padded-to-limit")
+        for i, m in enumerate(model):
+            r = case["rules"][i]
+            kinds = set(_up_kind(case, j) for j in _flat_deps(r["decl"]))
+            labels.update("dep=" + k for k in kinds)
+            if m["cls"] == "exception" and (m["why"] == "lazy-content" or (
+                    m["why"] == "raise" and r["ret"].get("exc") in ("ContentException", "CalledProcessError"))):
+                labels.add("content-error-in-rule:" + ("over-spec" if kinds - set(["component"]) else "no-spec-below"))
         if not inproc:
             labels.add("show=%s" % ("default" if not case.get("show_rules") else "subset"))
         keys = [(m.get("key"), case["rules"][i]["mod"]) for i, m in enumerate(model) if m["cls"] == "typed"]
@@ -881,6 +1066,7 @@ def _rule_set(draw, tier):
         links = draw(st.one_of(st.none(), st.just({}), st.dictionaries(st.sampled_from(["kcs", "jira"]),
                                                                      st.lists(st.sampled_from(["http://u/1", "http://u/2"]), max_size=2), max_size=2)))
         rules.append({"mod": draw(st.integers(0, nmod - 1)), "decl": draw(_decl()),
+                      "reads": draw(st.sampled_from([True, True, True, False])),
                       "enabled": draw(st.sampled_from([True, True, True, True, False])),
                       "empty_optional": draw(st.booleans()),
                       "tags": draw(st.one_of(st.none(), st.lists(st.sampled_from(["t1", "t2", "sec"]), max_size=3))),
@@ -889,6 +1075,10 @@ def _rule_set(draw, tier):
     case = {"ups": ["ok", "skip", draw(st.sampled_from(["ok", "skip", "crash"])), draw(st.sampled_from(["ok", "skip", "crash"]))],
             "modules": modules, "rules": rules, "evaluator": ev, "incremental": draw(st.booleans()),
             "limit": draw(_limits)}
+    # what the rules are built on: plain components, or the real thing - specs (registry point <- datasource),
+    # parsers / conditions on specs, combiners on parsers; and whether the content behind it can be read
+    case["upkinds"] = [draw(st.sampled_from(UPKINDS)) for _ in range(4)]
+    case["upcontent"] = [draw(st.sampled_from(["ok", "ok", "ok", "ce", "cpe"])) for _ in range(4)]
     if ev not in ("single", "insights"):
         case["missing"] = draw(st.booleans())
         case["show_rules"] = draw(st.one_of(st.just([]), st.lists(st.sampled_from(SHOW_OPTS), min_size=1, max_size=5, unique=True)))
@@ -949,6 +1139,7 @@ _ALL_KINDS = [
     {"kind": "metadata_key", "value": [1, 2]}, {"kind": "none"}, {"kind": "nonresponse", "value": 0},
     {"kind": "raise", "exc": "ValueError"}, {"kind": "skip"},
     {"kind": "pass", "key": "K2", "payload": {}, "pad": 1},
+    {"kind": "raise", "exc": "ContentException"},
 ]
 
 
@@ -956,6 +1147,11 @@ def enum_filtering(tier):
     rules = []
     for i, ret in enumerate(_ALL_KINDS):
         rules.append({"mod": i % 2, "decl": [["req", 0]], "enabled": True, "tags": ["t1"], "links": None, "ret": ret})
+    # a rule whose spec is there but cannot be read, and one that only looks at what can be read
+    rules.append({"mod": 1, "decl": [["req", 0], ["opt", 3]], "enabled": True, "reads": True, "tags": None, "links": None,
+                  "ret": {"kind": "fail", "key": "K2", "payload": {}}})
+    rules.append({"mod": 0, "decl": [["grp", [1, 0]], ["opt", 2]], "enabled": True, "reads": True, "tags": None, "links": None,
+                  "ret": {"kind": "info", "key": "K1", "payload": {}}})
     rules.append({"mod": 0, "decl": [["req", 1], ["grp", [1, 2]]], "enabled": True, "tags": None, "links": None,
                   "ret": {"kind": "fail", "key": "K1", "payload": {}}})
     rules.append({"mod": 1, "decl": [["req", 0]], "enabled": False, "tags": None, "links": None,
@@ -966,6 +1162,8 @@ def enum_filtering(tier):
                 for show in itertools.combinations(SHOW_OPTS, n):
                     for fo in ((False, True) if ev == "json-adapter" and n <= 1 else (None,)):
                         case = {"ups": ["ok", "skip", "crash", "ok"],
+                                "upkinds": ["parser", "component", "combiner", "spec"],
+                                "upcontent": ["ok", "ok", "ok", "cpe"],
                                 "modules": [{"pkg": "a", "base": "rules"}, {"pkg": "b", "base": "rules"}],
                                 "rules": rules, "evaluator": ev, "incremental": False, "limit": 2000,
                                 "missing": missing, "show_rules": list(show)}
@@ -1005,6 +1203,21 @@ REGRESSIONS = [
                     "ret": {"kind": "metadata", "payload": {"a": 1}}}],
          "evaluator": "yaml-adapter", "incremental": False, "limit": None, "missing": False,
          "show_rules": [], "fail_only": True}),
+    # round 4: rules on real plugin types; the spec / component is there, its content fails when the rule reads it
+    Reg("unreadable-content-under-rules", "rule_sets",
+        {"ups": ["ok", "skip", "ok", "crash"], "upkinds": ["spec", "parser", "combiner", "condition"],
+         "upcontent": ["ce", "ok", "ok", "cpe"], "modules": [{"pkg": "a", "base": "rules"}, {"pkg": "b", "base": "checks"}],
+         "rules": [{"mod": 0, "decl": [["req", 0]], "enabled": True, "reads": True, "tags": ["t1"], "links": None,
+                    "ret": {"kind": "fail", "key": "K1", "payload": {}}},
+                   {"mod": 1, "decl": [["req", 2], ["opt", 0]], "enabled": True, "reads": False, "tags": None, "links": None,
+                    "ret": {"kind": "raise", "exc": "CalledProcessError"}},
+                   {"mod": 1, "decl": [["req", 2], ["grp", [1, 3]], ["opt", 0]], "enabled": True, "reads": True, "tags": None,
+                    "links": None, "ret": {"kind": "pass", "key": "K1", "payload": {}}},
+                   {"mod": 0, "decl": [["req", 2], ["opt", 3]], "enabled": True, "reads": True, "tags": None, "links": {},
+                    "ret": {"kind": "info", "key": "K1", "payload": {"a": 1}}},
+                   {"mod": 0, "decl": [["grp", [0, 2]]], "enabled": True, "reads": False, "tags": None, "links": None,
+                    "ret": {"kind": "skip"}}],
+         "evaluator": "json", "incremental": False, "limit": None, "missing": True, "show_rules": [], "shadows": 1}),
     Reg("limit-exact", "responses", {"cls": "fail", "key": "K1", "kwargs": {"a": 1}, "pad": 0, "limit": None}),
     Reg("limit-plus-one", "responses", {"cls": "fail", "key": "K1", "kwargs": {"a": 1}, "pad": 1, "limit": None}),
     Reg("bytes-key", "responses", {"cls": "pass", "key": {"__bytes__": "K1"}, "kwargs": {}, "limit": None}),
